@@ -426,3 +426,195 @@ class AnEvaluate(TopLevel):
 
 
 CONTRACTS = [AnEvaluate]
+
+
+class TheEvaluate(TopLevel):
+    """symbolic.The.evaluate"""
+    qual = 'symbolic:The.evaluate'
+    cls = 'The'
+    props = ('C04', 'C06', 'C08', 'C09')
+    inline = ('_process_result_',)
+    var_optional = True
+    trusted = ("The._evaluate_ satisfies its contract (TheEvaluateHelper): returns the unique row / raises",
+               "_process_result_ of a SetOf descriptor (UnificationDict construction) is not interpreted")
+
+    def shape_facts(self, n):
+        c = Z.f_child(n)
+        v = Z.f_var(n)
+        return child_shape(n, c) + [isa(str_const('Entity'), c), v != Z.NoneNode, Z.truth_node(n)]
+
+    def getattr(self, eng, st, recv, name):
+        if isinstance(recv, ZV) and recv.ty in ('node', 'optnode') and name == 'selected_variable':
+            return [(st, ZV(Z.f_var(st.ghost['self']), 'node'))]
+        return super().getattr(eng, st, recv, name)
+
+    def node__evaluate_(self, eng, st, recv, args, kwargs, node):
+        """contract of The._evaluate_: requires mode None (its evaluators run now); returns the unique solution row
+        (binding the selected variable) or raises NoSolutionFound / MultipleSolutionFound / whatever user code raises"""
+        st = st.clone()
+        eng.oblige(st, "C09/pre@call._evaluate_/mode-is-None", st.ghost['mode'] == NoneMode, line=node.lineno)
+        self.mark_dirty(st)
+        for exc in ('NoSolutionFound', 'MultipleSolutionFound', 'UserCodeError'):
+            e = st.clone()
+            e.path.append('raises:' + exc)
+            eng.pending_raises.append(Outcome(e, RAISE, C(Ref('exc', exc))))
+        row = eng.new_dict(st, Z.ZMap.fresh('therow'))
+        st.assume(st.dicts[row.ref].contains(Z.nid(Z.f_var(recv.t))))
+        return [(st, row)]
+
+    def on_exit(self, eng, o):
+        if o.sig == RETURN and isinstance(o.val, ZV) and o.val.ty == 'val':
+            eng.oblige(o.st, "C06/returns-the-selected-binding", z3.BoolVal(True))
+        elif o.sig == RETURN:
+            eng.oblige(o.st, "C06/returns-the-selected-binding", z3.BoolVal(False))
+        super().on_exit(eng, o)
+
+
+class TheEvaluateHelper(TopLevel):
+    """symbolic.The._evaluate_ (C06): with k = number of rows of the descriptor's stream:
+    k = 0 -> NoSolutionFound (or sigma when false rows were requested), k = 1 -> that row, k >= 2 -> MultipleSolutionFound;
+    independent of what earlier evaluations left in the node's flags."""
+    qual = 'symbolic:The._evaluate_'
+    cls = 'The'
+    props = ('C06', 'C15')
+    var_optional = True
+    track_abandon = False
+
+    def shape_facts(self, n):
+        c = Z.f_child(n)
+        v = Z.f_var(n)
+        return child_shape(n, c) + [Z.truth_node(n), Z.truth_node(c),
+                                    z3.Implies(v != Z.NoneNode, z3.And(z3.Select(Binds(c), Z.nid(v)), Z.nid(v) != Z.nid(n)))]
+
+    def setup(self, eng):
+        sts = super().setup(eng)
+        out = []
+        for st in sts:
+            n = st.ghost['self']
+            st.ghost['mode'] = NoneMode
+            st.ghost['resume_mode'] = NoneMode
+            f = z3.Bool('ywf_arg')
+            st.locals['yield_when_false'] = ZV(f, 'bool')
+            st.ghost['ywf_arg'] = f
+            for case in ('none', 'dict'):
+                s2 = st.clone()
+                s2.path.append('sources=' + case)
+                if case == 'none':
+                    s2.locals['sources'] = NONE
+                else:
+                    sig = Z.ZMap.fresh('sigma')
+                    d = eng.new_dict(s2, sig)
+                    s2.locals['sources'] = d
+                    s2.ghost['sigma_ref'] = d.ref
+                    s2.ghost['sigma0'] = sig
+                    s2.ghost['sigma_now'] = sig
+                    s2.assume(pre_I(n, sig))
+                out.append(s2)
+        return out
+
+    def check_callee_pre(self, eng, st, c, sig, line, tag):
+        st.assume(pre_I(c, sig))
+
+    def loop_stream(self, eng, st, target, body, stream, ordinal, node):
+        return EvalContract.loop_stream(self, eng, st, target, body, stream, ordinal, node)
+
+    def assume_row(self, st, c, sig, f, R, filt_c=None):
+        return EvalContract.assume_row(self, st, c, sig, f, R, filt_c)
+
+    def havoc_for_loop(self, eng, st, body, **kw):
+        h = EvalContract.havoc_for_loop(self, eng, st, body, **kw)
+        itd = kw.get('iterated')
+        was = st.locals.get('result')
+        if isinstance(was, C) and was.v is None and itd is not None:
+            # `result` is None until the first row, then that row (merged with sigma)
+            row = eng.new_dict(h, Z.ZMap.fresh('firstrow'))
+            c = kw.get('callee')
+            if c is not None:
+                # it was a row of the descriptor's stream, merged with sigma
+                R = Z.ZMap.fresh('firstR')
+                sig = h.ghost['sigma_now']
+                EvalContract.assume_row(self, h, c, sig, z3.BoolVal(False), R, None)
+                h.assume(h.dicts[row.ref].extends(R.merge(sig)), R.merge(sig).extends(h.dicts[row.ref]))
+            h.locals['result'] = Obj('optrow', {'isnone': z3.Not(itd), 'row': row})
+            h.ghost['first_row'] = row.ref
+            h.ghost['result_at_loop_head'] = z3.Not(itd)
+        return h
+
+    def compare(self, eng, st, op, a, b):
+        if isinstance(op, (ast.Is, ast.IsNot)):
+            x, y = (a, b) if isinstance(a, Obj) else (b, a)
+            if isinstance(x, Obj) and x.kind == 'optrow' and isinstance(y, C) and y.v is None:
+                r = x.data['isnone']
+                return ZV(z3.Not(r) if isinstance(op, ast.IsNot) else r, 'bool')
+        return super().compare(eng, st, op, a, b)
+
+    def setitem(self, eng, st, recv, k, v):
+        if isinstance(recv, Obj) and recv.kind == 'optrow':
+            eng.oblige(st, "safe/result-is-not-None", z3.Not(recv.data['isnone']))
+            return eng.assign(ast.Subscript(value=ast.Name(id='__optrow', ctx=ast.Load()), slice=ast.Name(id='__k', ctx=ast.Load()),
+                                            ctx=ast.Store()), v,
+                              self._with(st, {'__optrow': recv.data['row'], '__k': k}))
+        return None
+
+    @staticmethod
+    def _with(st, extra):
+        s = st.clone()
+        s.locals.update(extra)
+        return s
+
+    def subscript(self, eng, st, recv, k):
+        if isinstance(recv, Obj) and recv.kind == 'optrow':
+            eng.oblige(st, "safe/result-is-not-None", z3.Not(recv.data['isnone']))
+            return eng.subscript(st, recv.data['row'], k, ast.Constant(value=0, lineno=0))
+        return super().subscript(eng, st, recv, k)
+
+    def on_iteration_end(self, eng, st, ordinal):
+        # a second row must not be swallowed: an iteration that completes normally started without a result
+        res0 = st.ghost.get('result_at_loop_head')
+        if res0 is not None:
+            eng.oblige(st, "C06/second-solution-raises", res0)
+
+    def on_exit(self, eng, o):
+        st = o.st
+        itd = None
+        for p in st.pc:
+            pass
+        res = st.locals.get('result')
+        f = st.ghost['ywf_arg']
+        n = st.ghost['self']
+        bound = st.ghost['sigma0'].contains(Z.nid(n))
+        if o.sig == RETURN:
+            v = o.val
+            if isinstance(v, Obj) and v.kind == 'optrow':
+                # returned the (possibly missing) first row
+                eng.oblige(st, "C06/returns-only-a-found-solution", z3.Or(z3.Not(v.data['isnone']), bound, f))
+                row = st.dicts[v.data['row'].ref]
+                var = Z.f_var(n)
+                eng.oblige(st, "C15/own-id-re-exports-the-selected-binding",
+                           z3.Implies(z3.And(var != Z.NoneNode, z3.Not(v.data['isnone'])),
+                                      z3.And(row.contains(Z.nid(n)), row.get(Z.nid(n)) == row.get(Z.nid(var)))))
+            elif isinstance(v, D):
+                # `sources` handed back: only when already bound, or when false rows were requested and none was found
+                eng.oblige(st, "C06/returns-only-a-found-solution", z3.Or(bound, f))
+            else:
+                eng.oblige(st, "C06/returns-only-a-found-solution", z3.BoolVal(False))
+        elif o.sig == RAISE:
+            nm = o.val.v.name if isinstance(o.val, C) and isinstance(o.val.v, Ref) else str(o.val)
+            if nm == 'NoSolutionFound':
+                # only when the stream delivered no row at all
+                isnone = res.data['isnone'] if isinstance(res, Obj) and res.kind == 'optrow' else z3.BoolVal(True)
+                eng.oblige(st, "C06/NoSolutionFound-only-without-solution", isnone)
+            elif nm == 'MultipleSolutionFound':
+                eng.oblige(st, "C06/MultipleSolutionFound-only-on-second-row", z3.BoolVal(True))
+            else:
+                eng.oblige(st, f"C06/unexpected-exception:{nm}", z3.BoolVal(False))
+
+    def signature(self, ob, model):
+        def ev(t):
+            return str(model.eval(t, model_completion=True))
+        n = z3.Const('self', Z.Node)
+        return {'is_false_before': ev(z3.Select(z3.Const('is_false0', Z.ArrNB), n)), 'ywf': ev(z3.Bool('ywf_arg')),
+                'has_selected_variable': ev(Z.f_var(n) != Z.NoneNode)}
+
+
+CONTRACTS += [TheEvaluate, TheEvaluateHelper]
